@@ -12,7 +12,7 @@ PROP = "C09"
 LEVEL = "exploration"
 RULE = ("operation sequences over {NMT command cs in {1,2,128,129,130,0,3,127,255} x target in {own, 0, other}, CONmtSetMode x4, CONmtReset x2, "
         "CONodeStart, CONodeStop}: complete enumeration to the depth bound plus random longer sequences; after EVERY operation the probes fire "
-        "(SDO read, the eight frames of an SDO block download + block upload incl. the unanswered ones, RPDO, SYNC incl. a synchronous RPDO received before the operation, heartbeat of a monitored node, LSS inquiry, foreign identifier, EMCY set/clear, TPDO trigger, heartbeat "
+        "(three failing CAN reads with an NMT command / SDO request / foreign frame left in the buffer, SDO read, the eight frames of an SDO block download + block upload incl. the unanswered ones, RPDO, SYNC incl. a synchronous RPDO received before the operation, heartbeat of a monitored node, LSS inquiry, foreign identifier, EMCY set/clear, TPDO trigger, heartbeat "
         "producer ticks) and frames, callbacks, CONmtGetMode and object effects are compared with the reference FSM and gating table; "
         "non-trivial = sequence with >= 1 mode change; distinct by operation sequence")
 ASSUMPTIONS = ["delivery of unclaimed frames in STOPPED and INITIALISING is not constrained (DESIGN.md A.3)",
@@ -185,6 +185,17 @@ def probes(m, sim, chk, res):
     live = mode in (PREOP, OP)
     m.nprobe += 1
     open_unclaimed = (0, 1) if mode in (STOP, INIT) else (0, 0)
+    # P0 a failing CAN read is no received frame: whatever the driver left in the buffer, no service reacts
+    for frame_id, data in ((0, bytes([1 if mode != OP else 128, nid])), (0x600 + nid, bytes([0x40, 0x00, 0x10, 0x00, 0, 0, 0, 0])), (0x123, bytes([9, 9]))):
+        chk.what = "probe failing CAN read (buffer holds frame %x) in mode %d" % (frame_id, mode)
+        sim.cmd("fault canread 1")
+        evs = sim.rx(frame_id, data)
+        if not chk.step(evs, [], (0, 0), {"mode": 0}, "read-error"):
+            return False
+    got = int(sim.ret("getmode")[0])
+    if got != mode and mode != DEAD:
+        chk.fail("read-error/mode", "NMT mode %d after failing CAN reads, reference %d" % (got, mode))
+        return False
     # P1 SDO read
     chk.what = "probe SDO read in mode %d" % mode
     evs = sim.rx(0x600 + nid, bytes([0x40, 0x00, 0x10, 0x00, 0, 0, 0, 0]))
@@ -295,7 +306,7 @@ def probes(m, sim, chk, res):
         chk.fail("hbprod/frames", "heartbeats %r, reference %r (producer started at tick %d)" % (
             [(t, "%x" % c, d.hex()) for t, c, d in got], [(t, "%x" % c, d.hex()) for t, c, d in exp], m.hb_base))
         return False
-    res.counters["probes"] += 17
+    res.counters["probes"] += 20
     return True
 
 
